@@ -56,7 +56,7 @@ struct thr {
   volatile int tid;
   pthread_t pt;
 };
-enum { K_PARKED = 0, K_SPINNER = 1, K_SLEEPER = 2, K_NULLSP = 3, K_EXITER = 4 };
+enum { K_PARKED = 0, K_SPINNER = 1, K_SLEEPER = 2, K_NULLSP = 3, K_EXITER = 4, K_FDCHURN = 5 };
 
 static struct thr thrs[MAX_THREADS] __attribute__((aligned(16)));
 static int nthr;
@@ -221,6 +221,16 @@ static void *thread_main(void *arg) {
     }
     syscall(SYS_exit, 0);
     break;
+  }
+  case K_FDCHURN: {
+    // keeps changing the descriptor table: 0..8 extra descriptors are open at any instant
+    int fds[8];
+    for (;;) {
+      for (int i = 0; i < 8; i++) fds[i] = open("/dev/null", O_RDONLY);
+      for (int i = 0; i < 8; i++)
+        if (fds[i] >= 0) close(fds[i]);
+      shm->heartbeat[t->id]++;
+    }
   }
   case K_SLEEPER:
   default:
